@@ -1,6 +1,8 @@
-"""Cluster-level properties decided with Gossip.tla: C02 C03 C04 C05 C20 (core step relation).
+"""Cluster-level properties decided with Gossip.tla:
+   C02 C03 C04 C05 C20 (core), C07 (structure + observed size), C12 C13 (membership, watch),
+   C16 (cluster isolation), C18 (catch-up).
 
-Pipeline per run (DESIGN 2.2):
+One family pipeline, shared by all of them (DESIGN 2.2):
   model   : TLC checks every formula on Gossip.tla for small constants (spec-only, cached) and
             exports one behaviour per transition.
   replay  : every behaviour is executed on real nodes; projected states / replies are compared (R1).
@@ -10,9 +12,13 @@ Pipeline per run (DESIGN 2.2):
             judged by ObserveGossip -- the property's own formulas on the logged real states (R2);
             divergent prefixes are amplified with random continuations before judging.
   VIOLATION only when the property's formula fails on a real execution; mere non-conformance is
-  reported as drift in the evidence file."""
+  reported as drift in the evidence file.  The code-dependent part of the pipeline is cached by
+  (specification hash, hash of /repo/chitchat sources, tier, seed), so the properties of the family
+  share one computation per tree."""
+import hashlib
 import json
 import os
+import re
 import subprocess
 
 from lib import vlib
@@ -20,16 +26,26 @@ from lib import vlib
 FILES = ["NodeStateOps.tla", "Gossip.tla", "MC_Gossip.tla", "TraceGossip.tla",
          "MC_TraceGossip.tla", "ObserveGossip.tla", "MC_ObserveGossip.tla"]
 
+# formulas that constitute each property (inv = state invariants, props = action properties);
+# "nogc" formulas are part of the property only on executions without tombstone GC (C13, see DESIGN)
 FORMULAS = {
     "C02": {"inv": ["C02_NoResurrection"], "props": []},
     "C03": {"inv": ["C03_Integrity"], "props": []},
     "C04": {"inv": ["C04_NoPanic"], "props": ["C04_Monotonic", "C04_FreshVersion"]},
     "C05": {"inv": ["C05_OwnerAhead"], "props": ["C05_OwnUntouched"]},
+    "C07": {"inv": [], "props": ["C07_Structure", "C07_Size"]},
+    "C12": {"inv": ["C12_Sets"], "props": ["C12_Partition", "C12_Quarantine", "C12_Removal", "C12_NoRevival"]},
+    "C13": {"inv": [], "props": ["C13_Publish", "C13_OnlyEval"], "nogc": ["C13_Exact"]},
+    "C16": {"inv": ["C16_Isolation"], "props": ["C16_Reject"]},
+    "C18": {"inv": [], "props": ["C18_Catchup", "C18_NoPanic"]},
     "C20": {"inv": [], "props": ["C20_Callback"]},
 }
 ALL_INV = ["C02_NoResurrection", "C03_Integrity", "C04_NoPanic", "C05_OwnerAhead",
-           "WellFormedCopies", "NoStaleTombstones", "C12_Sets", "C16_Isolation"]
-ALL_PROPS = ["C04_Monotonic", "C04_FreshVersion", "C05_OwnUntouched", "C20_Callback"]
+           "WellFormedCopies", "C12_Sets", "C16_Isolation"]
+MODEL_ONLY_INV = ["NoStaleTombstones"]
+ALL_PROPS = ["C04_Monotonic", "C04_FreshVersion", "C05_OwnUntouched", "C20_Callback",
+             "C07_Structure", "C12_Partition", "C12_Quarantine", "C12_Removal", "C12_NoRevival",
+             "C13_Publish", "C13_OnlyEval", "C16_Reject", "C18_Catchup", "C18_NoPanic"]
 
 BASE = {
     "Node": vlib.tla_set(["n1", "n2"]), "Writers": vlib.tla_set(["n1"]),
@@ -39,36 +55,96 @@ BASE = {
     "PhiN": 8, "PhiD": 1, "Window": 3, "MaxInterval": 10, "Prior": 5, "DeadGrace": 100,
     "PredKey": '""', "PredVal": '""', "Enable": vlib.tla_set(["api", "gc", "lose", "dup"]),
 }
+FD_TINY = {"PhiN": 1, "PhiD": 1, "Window": 1, "MaxInterval": 2, "Prior": 1, "DeadGrace": 4}
+FD_TINY_H = {"phi": 1.0, "window": 1, "max_interval": 2, "initial": 1, "dead_grace": 4}
 
-# exhaustive model configs: name -> (constants override, harness cfg, export mode)
+# exhaustive model configs: name -> (constants override, harness cfg, nogc?)
 MODEL_CFGS = {
-    "two": (dict(), {"nodes": ["n1", "n2"], "grace": 2, "strip_hb": True}),
+    "two": (dict(), {"nodes": ["n1", "n2"], "grace": 2, "strip_hb": True}, False),
     "two_ttl": (dict(Val=vlib.tla_set(["a"]), Enable=vlib.tla_set(["api", "ttl", "gc", "lose", "dup"])),
-                {"nodes": ["n1", "n2"], "grace": 2, "strip_hb": True}),
+                {"nodes": ["n1", "n2"], "grace": 2, "strip_hb": True}, False),
     "three": (dict(Node=vlib.tla_set(["n1", "n2", "n3"]), Val=vlib.tla_set(["a"]),
                    Enable=vlib.tla_set(["api", "gc", "lose"])),
-              {"nodes": ["n1", "n2", "n3"], "grace": 2, "strip_hb": True}),
+              {"nodes": ["n1", "n2", "n3"], "grace": 2, "strip_hb": True}, False),
+    # membership: concrete detector with tiny parameters, predicate on k1 = a, no tombstone GC
+    "member": (dict(FD_TINY, Key=vlib.tla_set(["k1"]), Val=vlib.tla_set(["a"]), MaxVer=1,
+                    Advances="{1, 2}", MaxClock=5, MaxHb=3, TrackHb="TRUE",
+                    PredKey='"k1"', PredVal='"a"', Enable=vlib.tla_set(["api", "live"])),
+               {"nodes": ["n1", "n2"], "grace": 2, "fd": FD_TINY_H, "pred": ["k1", "a"]}, True),
+    "member_l": (dict(FD_TINY, Key=vlib.tla_set(["k1"]), Val=vlib.tla_set(["a"]), MaxVer=1,
+                      Advances="{1, 2}", MaxClock=7, MaxHb=4, TrackHb="TRUE",
+                      PredKey='"k1"', PredVal='"a"', Enable=vlib.tla_set(["api", "live"])),
+                 {"nodes": ["n1", "n2"], "grace": 2, "fd": FD_TINY_H, "pred": ["k1", "a"]}, True),
+    # two clusters sharing addresses: n1,n2 in "c", n3 in "C"
+    "clusters": (dict(Node=vlib.tla_set(["n1", "n2", "n3"]), Cluster=("<-", "MC_ClusterSplit"),
+                      Key=vlib.tla_set(["k1"]), Val=vlib.tla_set(["a"]), MaxVer=1, MaxInflight=2,
+                      Writers=vlib.tla_set(["n1", "n3"]), Enable=vlib.tla_set(["api", "lose", "dup"])),
+                 {"nodes": ["n1", "n2", "n3"], "grace": 2, "strip_hb": True,
+                  "clusters": {"n1": "c", "n2": "c", "n3": "C"}}, False),
+    # external catch-up interleaved with gossip
+    "catchup": (dict(Val=vlib.tla_set(["a"]), MaxVer=2, Enable=vlib.tla_set(["api", "gc", "catchup"])),
+                {"nodes": ["n1", "n2"], "grace": 2, "strip_hb": True}, False),
 }
-TIER_MODELS = {"quick": ["two"], "thorough": ["two", "two_ttl", "three"]}
+TIER_MODELS = {"quick": ["two", "member", "clusters", "catchup"],
+               "thorough": ["two", "two_ttl", "three", "member_l", "clusters", "catchup"]}
 
-# driver scenarios: (name, harness drive cfg, TLC constants override)
 FD_SMALL = {"phi": 2.0, "window": 3, "max_interval": 4, "initial": 2, "dead_grace": 6}
 FD_CONST = {"PhiN": 2, "PhiD": 1, "Window": 3, "MaxInterval": 4, "Prior": 2, "DeadGrace": 6}
+CLUSTERS5 = {"n1": "c", "n2": "c", "n3": "C", "n4": "cc", "n5": ""}
+
+
+# formulas that do not apply when arbitrary (inconsistent) states are fed through catch-up
+GARBAGE_EXCLUDED = ["C02_NoResurrection", "C03_Integrity", "C05_OwnerAhead", "C05_OwnUntouched",
+                    "WellFormedCopies"]
 
 
 def scenarios(tier, seed):
+    """(name, harness drive cfg, TLC constants override, nogc?[, excluded formulas])"""
     q = tier == "quick"
+    k = 1 if q else 10
     return [
         ("s3", {"nodes": ["n1", "n2", "n3"], "grace": 3, "keys": ["k1", "k2", "k3"],
-                "advances": [1, 2, 3, 4], "seed": seed * 1000 + 1, "traces": 120 if q else 1500,
-                "len": 100, "w_sync": 10}, {"Grace": 3}),
+                "advances": [1, 2, 3, 4], "seed": seed * 1000 + 1, "traces": 100 * k,
+                "len": 100, "w_sync": 10}, {"Grace": 3}, False),
         ("s4fd", {"nodes": ["n1", "n2", "n3", "n4"], "grace": 3, "fd": FD_SMALL,
                   "keys": ["k1", "k2", "k3"], "advances": [1, 2, 3, 4], "seed": seed * 1000 + 2,
-                  "traces": 120 if q else 1500, "len": 120, "w_live": 15, "w_hb": 5},
-         dict(FD_CONST, Grace=3)),
+                  "traces": 100 * k, "len": 120, "w_live": 15, "w_hb": 5},
+         dict(FD_CONST, Grace=3), False),
         ("s2w", {"nodes": ["n1", "n2"], "writers": ["n1"], "grace": 2, "keys": ["k1", "k2"],
-                 "advances": [1, 2, 3], "seed": seed * 1000 + 3, "traces": 150 if q else 2000,
-                 "len": 60, "nvals": 2, "w_ttl": 2}, {"Grace": 2}),
+                 "advances": [1, 2, 3], "seed": seed * 1000 + 3, "traces": 100 * k,
+                 "len": 60, "nvals": 2, "w_ttl": 2}, {"Grace": 2}, False),
+        # size truncation: every value is ~30 KB, two fit one datagram (Budget = 2 entry units)
+        ("s3mtu", {"nodes": ["n1", "n2", "n3"], "grace": 3, "val_size": 30000,
+                   "keys": ["k1", "k2", "k3", "k4"], "advances": [1, 2, 3, 4],
+                   "seed": seed * 1000 + 4, "traces": 80 * k, "len": 100, "nvals": 3, "w_sync": 10},
+         {"Grace": 3, "Budget": 2}, False),
+        # truncation + failure detector + predicate (watch channel under resets)
+        ("s3mtufd", {"nodes": ["n1", "n2", "n3"], "grace": 3, "val_size": 50000, "fd": FD_SMALL,
+                     "pred": ["k1", "v1"], "keys": ["k1", "k2", "k3"], "advances": [1, 2, 3],
+                     "seed": seed * 1000 + 5, "traces": 60 * k, "len": 110, "nvals": 2,
+                     "w_live": 18, "w_hb": 4, "w_sync": 10},
+         dict(FD_CONST, Grace=3, Budget=1, PredKey='"k1"', PredVal='"v1"'), False),
+        # membership without tombstone GC: the scope in which C13_Exact is claimed
+        ("s4mem", {"nodes": ["n1", "n2", "n3", "n4"], "grace": 1000, "fd": FD_SMALL,
+                   "pred": ["k1", "v1"], "keys": ["k1", "k2"], "advances": [1, 2, 3, 4],
+                   "seed": seed * 1000 + 6, "traces": 80 * k, "len": 120, "nvals": 2,
+                   "w_live": 25, "w_hb": 8, "w_ttl": 0},
+         dict(FD_CONST, Grace=1000, PredKey='"k1"', PredVal='"v1"'), True),
+        # five nodes in four clusters whose ids are prefixes / case variants of each other
+        ("s5cl", {"nodes": ["n1", "n2", "n3", "n4", "n5"], "clusters": CLUSTERS5, "grace": 3,
+                  "fd": FD_SMALL, "keys": ["k1", "k2"], "advances": [1, 2, 3],
+                  "seed": seed * 1000 + 7, "traces": 60 * k, "len": 100, "w_live": 10, "w_hb": 3},
+         dict(FD_CONST, Grace=3, Cluster=("<-", "MC_Cluster5")), False),
+        # external catch-up with honest peer snapshots, interleaved with gossip, GC and partitions
+        ("s3cu", {"nodes": ["n1", "n2", "n3"], "grace": 3, "fd": FD_SMALL, "keys": ["k1", "k2", "k3"],
+                  "advances": [1, 2, 3, 4], "seed": seed * 1000 + 8, "traces": 60 * k, "len": 90,
+                  "w_live": 8, "w_catchup": 14},
+         dict(FD_CONST, Grace=3), False),
+        # external catch-up with arbitrary / inconsistent supplied states (C18's input space)
+        ("s3cug", {"nodes": ["n1", "n2", "n3"], "grace": 3, "fd": FD_SMALL, "keys": ["k1", "k2", "k3"],
+                   "advances": [1, 2, 3, 4], "seed": seed * 1000 + 9, "traces": 60 * k, "len": 90,
+                   "w_live": 8, "w_catchup": 16, "cu_garbage": True},
+         dict(FD_CONST, Grace=3), False, GARBAGE_EXCLUDED),
     ]
 
 
@@ -83,6 +159,12 @@ def trace_constants(over):
 
 def tmp(name):
     return os.path.join(vlib.WORK, "tmp", name)
+
+
+def prop_formulas(prop, nogc):
+    f = FORMULAS[prop]
+    props = list(f["props"]) + (list(f.get("nogc", [])) if nogc else [])
+    return list(f["inv"]), props
 
 
 # ------------------------------------------------------------------ trace helpers
@@ -120,11 +202,13 @@ def steps_of_events(lines):
     return steps
 
 
-def validate_batch(trace_path, consts, label, max_rounds=6):
+def validate_batch(trace_path, consts, label, nogc, excluded=(), max_rounds=6):
     """TLC trace validation of a file of Reset-separated traces. Returns
-    (n_traces, n_events, accepted_count, rejected=[(lines, rejected_event_index_in_trace)])."""
-    cfg = vlib.write_cfg(tmp(f"trace_{label}.cfg"), "TraceSpec", consts, invariants=ALL_INV,
-                         properties=ALL_PROPS, view="TraceView", post="TraceAccepted")
+    (n_traces, n_events, accepted_count, rejected=[(lines, event_index_in_trace, why)])."""
+    props = [f for f in ALL_PROPS + ["C07_Size"] + (["C13_Exact"] if nogc else []) if f not in excluded]
+    cfg = vlib.write_cfg(tmp(f"trace_{label}.cfg"), "TraceSpec", consts,
+                         invariants=[f for f in ALL_INV if f not in excluded],
+                         properties=props, view="TraceView", post="TraceAccepted")
     traces = split_traces(trace_path)
     total = len(traces)
     nev = sum(len(t) for t in traces)
@@ -140,11 +224,8 @@ def validate_batch(trace_path, consts, label, max_rounds=6):
         at = info.get("rejected_at")
         errs = " ".join(info.get("errors", []))
         if at is None:
-            # an invariant / action property failed on a step the spec accepted: find the position
-            import re
-            m = re.search(r"(\d+) states generated", info.get("tail", ""))
-            at = info.get("distinct", 0) or 1
-        # locate the trace containing global event index `at` (1-based line number)
+            # a formula failed on a step the spec accepted: the bad state follows line distinct-1
+            at = max(info.get("distinct", 2) - 1, 1)
         pos = 0
         hit = None
         for ti, t in enumerate(cur):
@@ -159,16 +240,13 @@ def validate_batch(trace_path, consts, label, max_rounds=6):
         cur = cur[:hit] + cur[hit + 1:]
         path = tmp(f"trace_{label}_r{rnd}.ndjson")
         write_traces(path, cur)
-    # too many rejections: the rest is not validated against the actions; hand it to the observer
     for t in cur:
         rejected.append((t, None, "not validated (too many rejections in this batch)"))
     return total, nev, 0, rejected
 
 
 def _observe_once(path, cfg):
-    """One ObserveGossip run. Returns None (all formulas hold) or (formula, line_index) where
-    line_index is the 1-based line of the trace file whose consumption produced the bad state."""
-    import re
+    """One ObserveGossip run. Returns None (all formulas hold) or (formula, line_index)."""
     env = {"TRACE": path, "JAVA_TOOL_OPTIONS": vlib.TRACE_JAVA_OPTS + " -Xmx4g"}
     r, text = vlib.run_tlc("MC_ObserveGossip.tla", cfg, workers=1, timeout=3000, env=env)
     if "Parsing or semantic analysis failed" in text:
@@ -179,17 +257,17 @@ def _observe_once(path, cfg):
         if "Error:" in text:
             raise vlib.ToolError("observer failed: " + text[-1200:])
         return None
-    # d states were generated = initial state + (d-1) consumed lines
     d = int(inc.group(1)) if inc else r["distinct"]
     return (m.group(2) if m else "evaluation-error", max(d - 1, 1))
 
 
-def observe(lines_list, consts, prop, label):
-    """Runs ObserveGossip with the property's formulas on the given real traces.
+def observe(lines_list, consts, inv, props, label):
+    """Runs ObserveGossip with the given formulas on the given real traces.
     Returns [(trace_index, formula, event_index_in_trace)], each confirmed on its trace alone."""
-    f = FORMULAS[prop]
-    cfg = vlib.write_cfg(tmp(f"obs_{label}.cfg"), "ObsSpec", consts, invariants=f["inv"],
-                         properties=f["props"], view="ObsView", post="ObsDone")
+    if not inv and not props:
+        return []
+    cfg = vlib.write_cfg(tmp(f"obs_{label}.cfg"), "ObsSpec", consts, invariants=inv,
+                         properties=props, view="ObsView", post="ObsDone")
     found = []
     cur = list(enumerate(lines_list))
     for rnd in range(4):
@@ -209,7 +287,6 @@ def observe(lines_list, consts, prop, label):
                 hit = ti
                 break
             pos += len(t)
-        # confirm on the candidate trace alone (and its neighbours, should the position be off)
         confirmed = None
         for cand in (hit, hit - 1, hit + 1):
             if 0 <= cand < len(cur):
@@ -242,6 +319,161 @@ def run_harness(args, stdin_text=None, out_path=None):
     return p.stdout
 
 
+def strip(e):
+    if isinstance(e, dict):
+        return {k: strip(v) for k, v in e.items() if v is not None}
+    if isinstance(e, list):
+        return [strip(x) for x in e]
+    return e
+
+
+def hcfg_of(dcfg):
+    return {k: dcfg[k] for k in ("nodes", "grace", "fd", "val_size", "pred", "clusters") if k in dcfg}
+
+
+def jsonable(over):
+    return {k: (list(v) if isinstance(v, tuple) else v) for k, v in over.items()}
+
+
+def unjson(over):
+    return {k: (tuple(v) if isinstance(v, list) else v) for k, v in over.items()}
+
+
+# ------------------------------------------------------------------ the shared pipeline
+
+def family_key(tier, seed):
+    h = hashlib.sha256()
+    h.update(vlib.spec_hash(FILES).encode())
+    h.update(vlib.repo_hash().encode())
+    for dp, dn, fn in sorted(os.walk(os.path.join(vlib.HARNESS, "src"))):
+        dn.sort()
+        for f in sorted(fn):
+            with open(os.path.join(dp, f), "rb") as fh:
+                h.update(fh.read())
+    with open(__file__, "rb") as fh:
+        h.update(fh.read())
+    h.update(f"{tier}:{seed}".encode())
+    return h.hexdigest()[:20]
+
+
+def family_run(tier, seed):
+    key = family_key(tier, seed)
+    cpath = os.path.join(vlib.WORK, "cache", f"family_{key}.json")
+    if os.path.exists(cpath):
+        with open(cpath) as fh:
+            fam = json.load(fh)
+        fam["cached"] = True
+        return fam
+    fam = {"states": 0, "transitions": 0, "conform": 0, "models": {}, "drivers": {},
+           "divergent": [], "samples": [], "cached": False, "coverage_hits": {}}
+
+    # ---------------- spec -> code
+    for name in TIER_MODELS[tier]:
+        over, hcfg, nogc = MODEL_CFGS[name]
+        c = dict(BASE)
+        c.update(over)
+        cfgp = vlib.write_cfg(tmp(f"model_{name}.cfg"), "Spec", c, invariants=ALL_INV + MODEL_ONLY_INV,
+                              properties=ALL_PROPS + (["C13_Exact"] if nogc else []),
+                              view="View", constraint="Bounded", action_constraint="EmitEdge")
+        m = vlib.cached_model_run("gossip_" + name, "MC_Gossip.tla", cfgp, FILES[:3], workers=6,
+                                  timeout=3400, heap="12g")
+        if not m["ok"]:
+            raise vlib.ToolError(f"Gossip model {name}: formula fails on the MODEL (specification "
+                                 "issue, not a verdict on the code): " + "; ".join(m["errors"][:2]))
+        fam["states"] += m["distinct"]
+        fam["transitions"] += m["generated"]
+        outs, fed = vlib.pipe_edges_to(m["edges_file"],
+                                       [vlib.harness_bin("gossip"), "replay",
+                                        json.dumps(dict(hcfg, max_report=4))], procs=6)
+        summ = [o for o in outs if o.get("summary")]
+        div = [o for o in outs if o.get("diverged")]
+        nb = sum(s["behaviours"] for s in summ)
+        nd = sum(s["diverged"] for s in summ)
+        fam["conform"] += nb - nd
+        fam["models"][name] = {"distinct": m["distinct"], "generated": m["generated"],
+                               "behaviours_replayed": nb, "diverged": nd,
+                               "steps": sum(s["steps"] for s in summ), "cached_model": m.get("cached")}
+        if len(fam["samples"]) < 2:
+            fam["samples"] += vlib.sample_edges(m["edges_file"], 1)
+        over_t = {k: v for k, v in over.items() if k in ("Grace", "PhiN", "PhiD", "Window", "MaxInterval",
+                                                         "Prior", "DeadGrace", "PredKey", "PredVal",
+                                                         "Budget", "Cluster")}
+        over_t.setdefault("Grace", c["Grace"])
+        for o in div[:8]:
+            lines = ['{"a":"Reset"}\n'] + [json.dumps(strip(dict(e, i=i))) + "\n"
+                                          for i, e in enumerate(o["events"])
+                                          if e.get("a") not in ("Nop", "Lose") and not e.get("skipped")]
+            fam["divergent"].append({"lines": lines, "over": jsonable(over_t),
+                                     "hcfg": {k: v for k, v in hcfg.items() if k != "strip_hb"},
+                                     "steps": o["steps"], "nogc": nogc,
+                                     "note": f"replay of model {name} diverged"})
+
+    # ---------------- code -> spec
+    for sc in scenarios(tier, seed):
+        sname, dcfg, over, nogc = sc[:4]
+        excluded = sc[4] if len(sc) > 4 else []
+        tpath = tmp(f"drv_{sname}_{os.getpid()}.ndjson")
+        run_harness(["drive", json.dumps(dcfg)], out_path=tpath)
+        consts = trace_constants(over)
+        total, nev, acc, rej = validate_batch(tpath, consts, f"{sname}_{os.getpid()}", nogc, excluded)
+        fam["conform"] += acc
+        fam["drivers"][sname] = {"traces": total, "events": nev, "accepted": acc, "rejected": len(rej)}
+        for (lines, at, errs) in rej:
+            fam["divergent"].append({"lines": lines, "over": jsonable(over), "hcfg": hcfg_of(dcfg),
+                                     "steps": steps_of_events(lines), "nogc": nogc, "excluded": excluded,
+                                     "note": f"driver {sname}: trace rejected at event {at}: {errs[:200]}"})
+        hits = coverage_hits(tpath)
+        for k, v in hits.items():
+            fam["coverage_hits"][k] = fam["coverage_hits"].get(k, 0) + v
+        if len(fam["samples"]) < 4:
+            with open(tpath) as fh:
+                fam["samples"].append([json.loads(x) for x in fh.readlines()[1:3]])
+        os.remove(tpath)
+    with open(cpath + ".part", "w") as fh:
+        json.dump(fam, fh)
+    os.replace(cpath + ".part", cpath)
+    return fam
+
+
+def coverage_hits(tpath):
+    """Vacuity guard: how often the situations the formulas talk about occurred in real traces."""
+    c = {}
+
+    def inc(k, n=1):
+        c[k] = c.get(k, 0) + n
+    with open(tpath) as fh:
+        for line in fh:
+            e = json.loads(line)
+            inc("events")
+            p = e.get("post")
+            if p:
+                if p["dead"]:
+                    inc("states_with_dead_member")
+                if p["sched"]:
+                    inc("states_with_scheduled_member")
+                if len(p["live"]) > 1:
+                    inc("states_with_live_peer")
+                if e["a"] == "Liveness":
+                    inc("evaluations")
+                for x, cp in p["ns"].items():
+                    if cp["gc"] > cp["max"]:
+                        inc("copies_gc_above_max")
+            o = e.get("out")
+            if o and o.get("delta"):
+                for x, nd in o["delta"].items():
+                    if nd["from"] == 0 and nd["gc"] > 0:
+                        inc("reset_deltas")
+                    if not nd["kvs"] and nd["max"] == 0:
+                        inc("deltas_cut_before_first_entry")
+            if o and o.get("t") == "Bad":
+                inc("bad_cluster_replies")
+            if e["a"] == "Catchup":
+                inc("catchup_calls")
+            if e.get("panic"):
+                inc("panics")
+    return c
+
+
 KF1_STEPS = [
     {"a": "Set", "n": "n1", "k": "k1", "v": "a"}, {"a": "Set", "n": "n1", "k": "k2", "v": "b"},
     {"a": "CreateSyn", "n": "n2", "to": "n1"}, {"a": "Process", "n": "n1", "m": 2},
@@ -267,11 +499,8 @@ def kf1_witness(res):
                 out_path=tpath)
     consts = trace_constants({"Grace": 2})
     lines = split_traces(tpath)
-    # strict formula must fail, exempted formula must hold
-    save = FORMULAS.get("_strict")
-    FORMULAS["_strict"] = {"inv": ["C02_Strict"], "props": []}
-    strict = observe(lines, consts, "_strict", "kf1s")
-    exempt = observe(lines, consts, "C02", "kf1e")
+    strict = observe(lines, consts, ["C02_Strict"], [], "kf1s")
+    exempt = observe(lines, consts, ["C02_NoResurrection"], [], "kf1e")
     if strict and not exempt:
         res.known.append("KF-1 resurrection through an incremental delta accepted by a mid-reset copy "
                          "(watermark above max version) from a lower-watermark peer: still reproduces "
@@ -280,7 +509,7 @@ def kf1_witness(res):
                                              "exempted_formula_holds": True}
     elif exempt:
         res.violation({"kind": "gossip-trace", "hcfg": hc, "steps": KF1_STEPS, "formula": exempt[0][1],
-                       "consts": {"Grace": 2}},
+                       "consts": {"Grace": 2}, "nogc": False},
                       "KF-1 witness violates C02 outside the known-finding signature")
     else:
         res.coverage_extra["kf1_witness"] = {"reproduces": False}
@@ -294,130 +523,80 @@ def run(prop, tier, seed, replay=None):
     if replay:
         with open(replay) as fh:
             obj = json.load(fh)
+        if obj.get("kind") == "agreement-case":
+            from checks import agreement
+            return agreement.run(prop, tier, seed, replay=replay)
         tpath = tmp("replay.ndjson")
         run_harness(["trace", json.dumps(obj["hcfg"])],
                     stdin_text=json.dumps({"steps": obj["steps"]}) + "\n", out_path=tpath)
-        consts = trace_constants(obj.get("consts", {}))
-        v = observe(split_traces(tpath), consts, prop, "replay")
+        consts = trace_constants(unjson(obj.get("consts", {})))
+        inv, props = prop_formulas(prop, obj.get("nogc", False))
+        v = observe(split_traces(tpath), consts, inv, props, "replay")
         for (_, formula, at) in v:
             res.violation(obj, f"{formula} fails at event {at}")
         res.coverage = {"states": 1, "transitions": len(obj["steps"]),
                         "traces_validated_against_impl": 1, "samples": [obj["steps"][:6]]}
         return res.finish()
 
-    drift = []          # (hcfg, consts, steps, note)
-    divergent_traces = []   # (lines, consts, hcfg, note)
-    states = transitions = 0
-    conform = 0
-    model_info = {}
-    samples = []
-
-    # ---------------- spec -> code
-    for name in TIER_MODELS[tier]:
-        over, hcfg = MODEL_CFGS[name]
-        c = dict(BASE)
-        c.update(over)
-        cfgp = vlib.write_cfg(tmp(f"model_{name}.cfg"), "Spec", c, invariants=ALL_INV,
-                              properties=ALL_PROPS, view="View", constraint="Bounded",
-                              action_constraint="EmitEdge")
-        m = vlib.cached_model_run("gossip_" + name, "MC_Gossip.tla", cfgp, FILES[:3], workers=6,
-                                  timeout=3400, heap="12g")
-        if not m["ok"]:
-            raise vlib.ToolError(f"Gossip model {name}: formula fails on the MODEL (specification "
-                                 "issue, not a verdict on the code): " + "; ".join(m["errors"][:2]))
-        states += m["distinct"]
-        transitions += m["generated"]
-        outs, fed = vlib.pipe_edges_to(m["edges_file"],
-                                       [vlib.harness_bin("gossip"), "replay",
-                                        json.dumps(dict(hcfg, max_report=8))], procs=6)
-        summ = [o for o in outs if o.get("summary")]
-        div = [o for o in outs if o.get("diverged")]
-        nb = sum(s["behaviours"] for s in summ)
-        nd = sum(s["diverged"] for s in summ)
-        conform += nb - nd
-        model_info[name] = {"distinct": m["distinct"], "generated": m["generated"],
-                            "behaviours_replayed": nb, "diverged": nd,
-                            "steps": sum(s["steps"] for s in summ), "cached_model": m.get("cached")}
-        if not samples:
-            samples = vlib.sample_edges(m["edges_file"], 2)
-        for o in div[:8]:
-            consts = trace_constants({"Grace": c["Grace"]})
-            drift.append((hcfg, {"Grace": c["Grace"]}, o["steps"], f"replay of model {name} diverged"))
-            lines = ['{"a":"Reset"}\n'] + [json.dumps(strip(e)) + "\n" for e in o["events"]
-                                          if e.get("a") not in ("Nop", "Lose") and not e.get("skipped")]
-            divergent_traces.append((lines, consts, hcfg, {"Grace": c["Grace"]}, o["steps"]))
-
-    # ---------------- code -> spec
-    drv = {}
-    for (sname, dcfg, over) in scenarios(tier, seed):
-        tpath = tmp(f"drv_{prop}_{sname}.ndjson")
-        run_harness(["drive", json.dumps(dcfg)], out_path=tpath)
-        consts = trace_constants(over)
-        total, nev, acc, rej = validate_batch(tpath, consts, f"{prop}_{sname}")
-        conform += acc
-        drv[sname] = {"traces": total, "events": nev, "accepted": acc, "rejected": len(rej)}
-        hcfg = {k: dcfg[k] for k in ("nodes", "grace", "fd", "val_size", "pred") if k in dcfg}
-        for (lines, at, errs) in rej:
-            steps = steps_of_events(lines)
-            drift.append((hcfg, over, steps, f"driver {sname}: trace rejected at event {at}: {errs[:200]}"))
-            divergent_traces.append((lines, consts, hcfg, over, steps))
-        if len(samples) < 3:
-            with open(tpath) as fh:
-                samples.append([json.loads(x) for x in fh.readlines()[1:4]])
-        os.remove(tpath)
+    fam = family_run(tier, seed)
 
     # ---------------- judge every non-conforming real execution with the property's own formulas
     amplified = 0
-    if divergent_traces:
-        by_consts = {}
-        for item in divergent_traces:
-            by_consts.setdefault(json.dumps(item[3], sort_keys=True) + json.dumps(item[2], sort_keys=True), []).append(item)
-        for gi, (key, items) in enumerate(by_consts.items()):
-            consts, hcfg, over = items[0][1], items[0][2], items[0][3]
-            v = observe([it[0] for it in items], consts, prop, f"{prop}_g{gi}")
-            for (ti, formula, at) in v:
-                res.violation({"kind": "gossip-trace", "hcfg": hcfg, "consts": over,
-                               "steps": items[ti][4], "formula": formula},
-                              f"{formula} fails on a real execution (event {at})")
-            if not v:
-                # amplification: random continuations of the divergent prefixes on the real code
-                pre = [it[4] for it in items[:6] if it[4]]
-                if pre:
-                    pfile = tmp(f"prefix_{prop}_{gi}.json")
-                    with open(pfile, "w") as fh:
-                        json.dump(pre, fh)
-                    k = 40 if tier == "quick" else 200
-                    dcfg = dict(hcfg, keys=["k1", "k2", "k3"], advances=[1, 2, 3], seed=seed * 77 + gi,
-                                traces=k, len=50, prefix_file=pfile, w_sync=30,
-                                w_live=(10 if "fd" in hcfg else 0))
-                    apath = tmp(f"amp_{prop}_{gi}.ndjson")
-                    run_harness(["drive", json.dumps(dcfg)], out_path=apath)
-                    atr = split_traces(apath)
-                    amplified += len(atr)
-                    v2 = observe(atr, consts, prop, f"{prop}_a{gi}")
-                    for (ti, formula, at) in v2:
-                        res.violation({"kind": "gossip-trace", "hcfg": hcfg, "consts": over,
-                                       "steps": steps_of_events(atr[ti]), "formula": formula},
-                                      f"{formula} fails on a continuation of a divergent execution "
-                                      f"(event {at})")
-                    os.remove(apath)
+    groups = {}
+    for d in fam["divergent"]:
+        gk = json.dumps([d["over"], d["hcfg"], d["nogc"], d.get("excluded", [])], sort_keys=True)
+        groups.setdefault(gk, []).append(d)
+    for gi, (gk, items) in enumerate(groups.items()):
+        over, hcfg, nogc = unjson(items[0]["over"]), items[0]["hcfg"], items[0]["nogc"]
+        consts = trace_constants(over)
+        inv, props = prop_formulas(prop, nogc)
+        excl = items[0].get("excluded", [])
+        inv = [f for f in inv if f not in excl]
+        props = [f for f in props if f not in excl]
+        v = observe([it["lines"] for it in items], consts, inv, props, f"{prop}_g{gi}")
+        for (ti, formula, at) in v:
+            res.violation({"kind": "gossip-trace", "hcfg": hcfg, "consts": jsonable(over),
+                           "steps": items[ti]["steps"], "formula": formula, "nogc": nogc},
+                          f"{formula} fails on a real execution (event {at})")
+        if not v:
+            pre = [it["steps"] for it in items[:6] if it["steps"]]
+            if pre:
+                pfile = tmp(f"prefix_{prop}_{gi}.json")
+                with open(pfile, "w") as fh:
+                    json.dump(pre, fh)
+                k = 40 if tier == "quick" else 200
+                dcfg = dict(hcfg, keys=["k1", "k2", "k3"], advances=[1, 2, 3], seed=seed * 77 + gi,
+                            traces=k, len=50, prefix_file=pfile, w_sync=30, nvals=2,
+                            w_live=(10 if "fd" in hcfg else 0))
+                apath = tmp(f"amp_{prop}_{gi}.ndjson")
+                run_harness(["drive", json.dumps(dcfg)], out_path=apath)
+                atr = split_traces(apath)
+                amplified += len(atr)
+                v2 = observe(atr, consts, inv, props, f"{prop}_a{gi}")
+                for (ti, formula, at) in v2:
+                    res.violation({"kind": "gossip-trace", "hcfg": hcfg, "consts": jsonable(over),
+                                   "steps": steps_of_events(atr[ti]), "formula": formula, "nogc": nogc},
+                                  f"{formula} fails on a continuation of a divergent execution "
+                                  f"(event {at})")
+                os.remove(apath)
 
     if prop == "C02":
         kf1_witness(res)
     pair_cov = {}
-    if prop in ("C04", "C20"):
+    if prop in ("C04", "C20", "C07"):
         from checks import agreement
         pair_cov = agreement.pairs_stage(res, prop, tier)
 
     res.coverage = {
-        "states": states, "transitions": transitions,
-        "traces_validated_against_impl": conform,
-        "models": model_info, "drivers": drv,
-        "drift": [{"note": d[3], "steps": d[2][:40]} for d in drift[:5]],
-        "drift_count": len(drift), "amplified_continuations": amplified,
+        "states": fam["states"], "transitions": fam["transitions"],
+        "traces_validated_against_impl": fam["conform"],
+        "models": fam["models"], "drivers": fam["drivers"],
+        "drift": [{"note": d["note"], "steps": d["steps"][:30]} for d in fam["divergent"][:4]],
+        "drift_count": len(fam["divergent"]), "amplified_continuations": amplified,
+        "situations_reached_in_real_traces": fam["coverage_hits"],
         "formulas": FORMULAS[prop],
-        "samples": samples,
-        "exhaustive": False,
+        "samples": fam["samples"],
+        "exhaustive": False, "family_result_cached": fam.get("cached", False),
         "checker_cmd": "tlc MC_Gossip (model+export) | harness gossip replay ; harness gossip drive | "
                        "tlc MC_TraceGossip ; non-conforming executions -> tlc MC_ObserveGossip",
     }
@@ -427,14 +606,8 @@ def run(prop, tier, seed, replay=None):
         "tokio paused clock = model clock; 1 tick = 1 s",
         "bounded scopes: exhaustive for the listed constants only, sampled beyond",
         "every ChitchatId is used by one incarnation; honest nodes only",
+        "unit-size model of the datagram budget (an entry with a ~30/50 KB value costs 1, everything else 0) "
+        "is validated on every truncated real reply by trace validation",
         "VIOLATION only if the property's formula fails on a real execution; non-conformance alone is drift",
     ]
     return res.finish()
-
-
-def strip(e):
-    if isinstance(e, dict):
-        return {k: strip(v) for k, v in e.items() if v is not None}
-    if isinstance(e, list):
-        return [strip(x) for x in e]
-    return e
